@@ -29,6 +29,23 @@ def setup(common=None):
     _U["pool"] = (common or {}).get("pool", [])
     _U["gen"] = {k: float(v) for k, v in (common or {}).get("gen", {}).items()}
     _U["ucache"] = {}
+    # the registry the quantities of this instance live in: the default one, or one the caller created and edited
+    from unyt import dimensions as D
+    from unyt.unit_registry import UnitRegistry, default_unit_registry
+
+    edits = (common or {}).get("edits")
+    if edits:
+        reg = UnitRegistry()
+        for e in edits:
+            if e["op"] == "add":
+                reg.add(e["sym"], float(e["value"]), getattr(D, e["dim"]), prefixable=bool(e["prefixable"]))
+            else:
+                reg.modify(e["sym"], float(e["value"]))
+        _U["reg"] = reg
+        _U["regkw"] = {"registry": reg}
+    else:
+        _U["reg"] = default_unit_registry
+        _U["regkw"] = {}
 
 
 def spec_str(case, which):
@@ -47,12 +64,28 @@ def spec_str(case, which):
 def unit_of(s):
     c = _U["ucache"]
     if s not in c:
-        c[s] = _U["Unit"](s)
+        c[s] = _U["Unit"](s, **_U["regkw"])
     return c[s]
 
 
 def ascii_unit(u):
-    return str(u).encode("ascii", "backslashreplace").decode("ascii")
+    """the resulting unit as a string.  A unit that means something else than the same expression means in the
+    quantity's registry (bound to another table with other values) is a different unit; a unit bound to the same
+    table, or to a copy with the same values (Unit.copy() makes one), is the same unit."""
+    reg = _U["reg"]
+    r = getattr(u, "registry", None)
+    own = r is reg or getattr(r, "lut", None) is reg.lut
+    if not own:
+        key = (str(u.expr), float(u.base_value), float(u.base_offset))
+        c = _U.setdefault("owncache", {})
+        if key not in c:
+            try:
+                v = _U["Unit"](u.expr, registry=reg)
+                c[key] = float(v.base_value) == key[1] and float(v.base_offset) == key[2] and v.dimensions == u.dimensions
+            except Exception:  # noqa: BLE001 - the expression does not exist in the quantity's registry
+                c[key] = False
+        own = c[key]
+    return str(u).encode("ascii", "backslashreplace").decode("ascii") + ("" if own else "@another-registry")
 
 
 def num_float(nj, g):
@@ -85,8 +118,8 @@ def make(case, ustr):
     else:
         vals = [float(x) for x in xs]
     if case["sh"] == "scalar":
-        return _U["uq"](dt.type(vals[0]), ustr)
-    return _U["ua"](np.array(vals, dtype=dt), ustr)
+        return _U["uq"](dt.type(vals[0]), ustr, **_U["regkw"])
+    return _U["ua"](np.array(vals, dtype=dt), ustr, **_U["regkw"])
 
 
 def run(f):
@@ -130,13 +163,15 @@ def conv_routes(case, sa, sb, sc):
         r.update(fam=fam, rt=rt, g=g)
         R.append(r)
 
-    for fam, g, t in (("id", "A", ua_), ("ab", "B", ub_), ("ac", "C", uc_)):
+    for fam, g, t, tn in (("id", "A", ua_, sa), ("ab", "B", ub_, sb), ("ac", "C", uc_, sc)):
         add(fam, "to", g, lambda t=t: mk().to(t))
+        add(fam, "to_name", g, lambda tn=tn: mk().to(tn))  # the target spelled as a string: resolved in the quantity's registry
         add(fam, "in_units", g, lambda t=t: mk().in_units(t))
         add(fam, "to_value", g, lambda t=t: mk().to_value(t))
         add(fam, "convert", g, lambda t=t: inplace(mk(), t))
         add(fam, "hand", g, lambda t=t: hand(mk(), t))
     add("aba", "to", "A", lambda: mk().to(ub_).to(ua_))
+    add("aba", "to_name", "A", lambda: mk().to(sb).to(sa))
     add("aba", "convert", "A", lambda: inplace(mk(), ub_, ua_))
     add("aba", "mixed", "A", lambda: inplace(mk().in_units(ub_), ua_))
     add("abc", "to", "C", lambda: mk().to(ub_).to(uc_))
@@ -201,6 +236,8 @@ def base_routes(case, sa):
     add("base", "to_equiv", "B", lambda: mk().to(ua_.get_base_equivalent(sys_)))
     add("base", "convert_equiv", "B", lambda: inplace(mk(), ua_.get_base_equivalent(sys_)))
     add("base", "hand", "B", lambda: hand(mk(), ua_.get_base_equivalent(sys_)))
+    # the same request with the target spelled out: the unit expression in_base arrived at, built in the quantity's registry
+    add("base", "to_named", "B", lambda: (lambda x: x.to(_U["Unit"](x.in_base(sys_).units.expr, **_U["regkw"])))(mk()))
     if sys_ in ("cgs", "mks"):
         add("base", "in_" + sys_, "B", lambda: getattr(mk(), "in_" + sys_)())
         add("base", "convert_" + sys_, "B", lambda: _cb(mk(), "convert_to_" + sys_))
@@ -226,6 +263,8 @@ def base_routes(case, sa):
 
     add("src", "in_base_then_twin", "A", base_then_twin)
     add("bback", "to", "A", lambda: mk().in_base(sys_).to(ua_))
+    add("bback", "to_name", "A", lambda: mk().in_base(sys_).to(sa))
+    add("bback", "convert_name", "A", lambda: inplace(_cb(mk(), "convert_to_base", sys_), sa))
     add("bback", "convert", "A", lambda: inplace(_cb(mk(), "convert_to_base", sys_), ua_))
     ub_ = None
     for r in R:
